@@ -509,6 +509,46 @@ Theorem C01_unfinished_command_rejected :
 Proof. exact RejectFacts.unfinished_command_rejected. Qed.
 Print Assumptions C01_unfinished_command_rejected.
 
+(* bytes that are no token after a prefix of the grammar: rejected at the place where no lexer rule matches *)
+Theorem C01_lexical_error_rejected :
+  forall T : tables,
+  twf_tables T = true ->
+  forall (text : bytes) (L : list bytes) (prev : option bytes) (k p : nat),
+  wf_prefix T (map strip_pos (fst (lex text))) L prev k ->
+  snd (lex text) = Some p -> exists ll : nat, parse T text = Reject EUnknownToken p ll.
+Proof. exact RejectFacts.lexical_error_rejected. Qed.
+Print Assumptions C01_lexical_error_rejected.
+
+(* after `if <test>` anything but '{' (a missing block): rejected at that token *)
+Theorem C01_missing_block_rejected :
+  forall T : tables,
+  twf_tables T = true ->
+  forall (text : bytes) (pre : list token) (tn : token) (ttoks : list token) 
+    (t : token) (rest : list token) (L : list bytes) (prev : option bytes) 
+    (k : nat) (d : cmddef) (a : argdef) (tst : gtest) (nt : node),
+  wf_prefix T (map strip_pos pre) L prev k ->
+  fst (lex text) = pre ++ tn :: ttoks ++ t :: rest ->
+  t_kind tn = TIdentifier ->
+  get_command_instance T L (t_val tn) = inl d ->
+  d_type d = CControl ->
+  d_accept_children d = true ->
+  d_args d = [a] ->
+  is_t1 a = true ->
+  wf_test T L tst nt ->
+  kind_of tst = Kcc ->
+  map strip_pos ttoks = toks_test tst ->
+  not_comment (t_kind t) = true ->
+  kind_mem (t_kind t) [TLeftCBracket] = false ->
+  parse T text = Reject EExpected (t_pos t) (Datatypes.length (t_val t)).
+Proof. exact RejectFacts.missing_block_rejected. Qed.
+Print Assumptions C01_missing_block_rejected.
+
+(* non-vacuity: `if size :over 100K stop;` (and ex_lexical_error: `%` inside a block) *)
+Theorem C01_missing_block_example :
+  parse gen_tables (bs (px_text ++ "if size :over 100K stop; }")) = Reject EExpected 65 4.
+Proof. exact RejectExamples.ex_missing_block. Qed.
+Print Assumptions C01_missing_block_example.
+
 (* in the arguments of a test that still needs arguments: a tag it does not take, a tag whose extension is not loaded, a value of the wrong type -- rejected at that token *)
 Theorem C01_test_argument_rejected :
   forall T : tables,
@@ -564,7 +604,7 @@ Theorem C01_misplaced_else_example :
 Proof. exact RejectExamples.ex_misplaced_else. Qed.
 Print Assumptions C01_misplaced_else_example.
 
-(* non-vacuity on the generated tables (one of twenty examples in sieve/RejectExamples.v: prefix `require ["fileinto"]; if size :over 100K {`) *)
+(* non-vacuity on the generated tables (one of twenty-two examples in sieve/RejectExamples.v: prefix `require ["fileinto"]; if size :over 100K {`) *)
 Theorem C01_reject_examples :
   let text := bs (px_text ++ "foo ""x""; }") in
   parse gen_tables text = Reject (EUnknownCommand (bs "foo")) 46 3 /\
